@@ -10,7 +10,10 @@
 (* all-valid request.  The harness (harness/cmd/rpcfuzz) turns a vector    *)
 (* into a concrete protobuf request against a fixed pre-state (2 topics, 3 *)
 (* subscriptions - dead-letter+retry / ordered+filtered / plain -, some    *)
-(* messages, live / acknowledged / foreign ack ids, one snapshot), sends   *)
+(* messages, live / acknowledged / foreign ack ids, one snapshot; the      *)
+(* deliverable backlog of the valid subscription holds messages of known   *)
+(* tiny sizes: payloads `1`, `12`, `1` = 1, 2, 1 bytes, in that order),    *)
+(* sends                                                                   *)
 (* it to a CHILD PROCESS that runs the production gRPC service with its    *)
 (* interceptor chain, and records an OBSERVATION                           *)
 (*    [rpc, f, outcome \in {"status","crash","wedge"}, code, changed]      *)
@@ -71,6 +74,14 @@ SeekTarget == {"absent", "time_absent", "time_min", "time_intmin", "time_intmax"
                "time_zero", "time_past", "time_huge", "snapshot_valid", "snapshot_wrongkind", "snapshot_empty",
                "snapshot_unknown"}
 
+\* StreamingPull flow control: byte limits RELATIVE to the backlog of the valid
+\* subscription (first deliverable message = 1 byte, the first two = 3 bytes):
+\* one less than / equal to / one more than the first message, equal to the
+\* first two; and how long the session is kept: first answer only / kept open
+\* ~300 ms reading responses without acknowledging / acknowledging what arrives
+ByteLimit == IntB \cup {"first_minus1", "eq_first", "first_plus1", "eq_first_two"}
+Session == {"first", "open_noack", "open_ack"}
+
 (***************************************************************************)
 (* Per-RPC field classes.  Every RPC of both services is listed; the three *)
 (* that the server does not implement must be answered too (Unimplemented).*)
@@ -112,7 +123,8 @@ Classes == [
   StreamingPull |-> [subscription |-> Name, ack_ids |-> AckIds,
                      modify_deadline |-> {"none", "matched", "mismatched", "garbage"},
                      stream_ack_deadline_seconds |-> IntB, client_id |-> {"empty", "set"},
-                     max_outstanding_messages |-> IntB, max_outstanding_bytes |-> IntB],
+                     max_outstanding_messages |-> IntB, max_outstanding_bytes |-> ByteLimit,
+                     session |-> Session],
   ModifyPushConfig |-> [subscription |-> Name, push_config |-> PushCfg],
   GetSnapshot |-> [snapshot |-> Name],
   ListSnapshots |-> [project |-> Name, page_size |-> IntB, page_token |-> PageTok],
@@ -162,7 +174,8 @@ Valid == [
   Pull |-> [subscription |-> "valid", max_messages |-> "one", return_immediately |-> "false"],
   StreamingPull |-> [subscription |-> "valid", ack_ids |-> "none", modify_deadline |-> "none",
                      stream_ack_deadline_seconds |-> "one", client_id |-> "set",
-                     max_outstanding_messages |-> "one", max_outstanding_bytes |-> "large"],
+                     max_outstanding_messages |-> "large", max_outstanding_bytes |-> "large",
+                     session |-> "first"],
   ModifyPushConfig |-> [subscription |-> "valid", push_config |-> "endpoint"],
   GetSnapshot |-> [snapshot |-> "valid"],
   ListSnapshots |-> [project |-> "valid", page_size |-> "one", page_token |-> "empty"],
@@ -175,9 +188,10 @@ Valid == [
 (***************************************************************************)
 (* Core field sets.  The thorough tier enumerates, for every set K in      *)
 (* Core[rpc], the FULL product over the fields of K with the other fields  *)
-(* valid.  For all RPCs but two K is the set of all fields, i.e. the     *)
-(* full product of the RPC.  For the two wide requests the product of all  *)
-(* fields has 10^6..10^7 elements; there the core sets are the groups      *)
+(* valid.  For all RPCs but three K is the set of all fields, i.e. the     *)
+(* full product of the RPC.  For the three wide requests the product of    *)
+(* all fields has 10^5..10^7 elements (and a kept-open stream costs real   *)
+(* time); there the core sets are the groups                               *)
 (* of fields that meet in one code path (names x durations x policies;     *)
 (* mask x the fields a path selects), and the remaining interactions are   *)
 (* covered by the t-wise rows computed from this table.                    *)
@@ -193,8 +207,16 @@ WideCore == [
                            "dead_letter_policy"},
                           {"update_mask", "dead_letter_policy", "retry_policy", "push_config"},
                           {"update_mask", "push_config", "filter", "labels",
-                           "enable_message_ordering"}}
+                           "enable_message_ordering"}},
+  StreamingPull |-> {{"subscription", "ack_ids", "modify_deadline", "max_outstanding_messages",
+                      "max_outstanding_bytes"},
+                     {"subscription", "max_outstanding_messages", "max_outstanding_bytes", "session"},
+                     {"subscription", "ack_ids", "modify_deadline", "session"},
+                     {"subscription", "stream_ack_deadline_seconds", "client_id", "session"}}
 ]
+\* products that the quick tier enumerates too (other fields valid): flow
+\* control against the backlog sizes x how long the session is kept
+QuickCore == [StreamingPull |-> {{"max_outstanding_bytes", "session"}}]
 Core(r) == IF r \in DOMAIN WideCore THEN WideCore[r] ELSE {AllFields(r)}
 
 (***************************************************************************)
@@ -234,14 +256,16 @@ Clause(o) == IF o.outcome = "crash" THEN "C16:crash"
 (***************************************************************************)
 (* Enumeration (Rpc.cfg): one initial state per vector.                    *)
 (***************************************************************************)
-CONSTANT Mode      \* "oneoff" | "core"
+CONSTANT Mode      \* "quick" (single-field deviations + QuickCore products) | "core"
 VARIABLE v
 
-Space(r) == IF Mode = "core" THEN CoreVectors(r) ELSE OneOff(r)
+QuickVectors(r) == IF r \in DOMAIN QuickCore THEN UNION {Prod(r, K) : K \in QuickCore[r]} ELSE {}
+Space(r) == IF Mode = "core" THEN CoreVectors(r) ELSE OneOff(r) \cup QuickVectors(r)
 
 ASSUME \A r \in RPCs : /\ DOMAIN Valid[r] = AllFields(r)
                        /\ InSpace([rpc |-> r, f |-> Valid[r]])
                        /\ \A K \in Core(r) : K \subseteq AllFields(r)
+                       /\ r \in DOMAIN QuickCore => \A K \in QuickCore[r] : K \subseteq AllFields(r)
 ASSUME DOMAIN Valid = RPCs
 ASSUME PrintT(<<"TABLE", ToJson([classes |-> Classes, valid |-> Valid,
                                   core |-> [r \in RPCs |-> Core(r)],
